@@ -45,6 +45,11 @@ def load():
     sys.path.insert(0, REPO)
     sys.path.insert(0, qdir)
     import importlib
+    import warnings
+
+    import numpy as _np
+    warnings.simplefilter("ignore")          # library RuntimeWarnings (0/0, overflow) are judged by the oracles, not printed
+    _np.seterr(all="ignore")
 
     names = {
         "utils": "utils",
